@@ -1,0 +1,90 @@
+//! Per-thread event recorder for the solve loop (read-only observation).
+//!
+//! `start()` arms the recorder on the calling thread, the guarded `observe(..)` calls in
+//! `solver/core/solver.rs` and `solver/implementations/default/info.rs` append events while a
+//! solve runs on that thread, and `take()` returns them.  Nothing is recorded (and nothing
+//! is cloned) unless the recorder is armed.
+use std::cell::RefCell;
+
+#[derive(Clone, Debug, PartialEq)]
+pub enum Event {
+    /// loop head, right after `info.save_scalars(μ, α, σ, iter)`
+    Head { iter: u32, alpha: f64, sigma: f64, mu: f64 },
+    /// end of `DefaultInfo::update`: the termination figures and the raw iterate
+    Info {
+        cost_primal: f64,
+        cost_dual: f64,
+        res_primal: f64,
+        res_dual: f64,
+        res_primal_inf: f64,
+        res_dual_inf: f64,
+        gap_abs: f64,
+        gap_rel: f64,
+        ktratio: f64,
+        prev_res_primal: f64,
+        prev_res_dual: f64,
+        prev_gap_abs: f64,
+        prev_gap_rel: f64,
+        solve_time: f64,
+        dot_bz: f64,
+        dot_qx: f64,
+    },
+    /// raw (scaled, homogeneous) iterate at `DefaultInfo::update`
+    Vars { x: Vec<f64>, s: Vec<f64>, z: Vec<f64>, tau: f64, kappa: f64 },
+    /// inside `check_termination`, just before the iteration / time limit tests
+    PreLimit { status: u32, iterations: u32, max_iter: u32, solve_time: f64, time_limit: f64 },
+    /// after `check_termination`
+    Term { done: bool, status: u32 },
+    /// result of a strategy checkpoint: kind 0 = insufficient progress, 1 = numerical error,
+    /// 2 = small step; code 0 = NoUpdate, 1 = Update(Dual), 2 = Fail, 3 = Update(PrimalDual)
+    Ck { kind: u32, code: u32 },
+    Scale { ok: bool, scaling: u32 },
+    IterInc { iter: u32 },
+    Kkt { ok: bool },
+    Aff { ok: bool },
+    AlphaAff { alpha: f64, sigma: f64 },
+    Comb { ok: bool },
+    Alpha { alpha: f64 },
+    AddStep { alpha: f64 },
+    /// after the loop, before the `α == 0` test
+    End { alpha: f64, iter: u32, status: u32 },
+    /// the extra `save_scalars` + status line taken when `α == 0`
+    ExtraLine { iter: u32 },
+    /// entry and exit status of `info.post_process`
+    Post { status_in: u32, status_out: u32 },
+    /// `reset_to_prev_iterate` was called (roll-back)
+    Rollback,
+    /// `save_prev_iterate` was called
+    SavePrev,
+}
+
+thread_local! {
+    static TRACE: RefCell<Option<Vec<Event>>> = const { RefCell::new(None) };
+}
+
+/// arm the recorder on this thread (discarding anything recorded before)
+pub fn start() {
+    TRACE.with(|t| *t.borrow_mut() = Some(Vec::new()));
+}
+/// disarm and return what was recorded
+pub fn take() -> Vec<Event> {
+    TRACE.with(|t| t.borrow_mut().take().unwrap_or_default())
+}
+/// true when armed (lets call sites skip building expensive events)
+pub fn armed() -> bool {
+    TRACE.with(|t| t.borrow().is_some())
+}
+pub fn observe(e: Event) {
+    TRACE.with(|t| {
+        if let Some(v) = t.borrow_mut().as_mut() {
+            v.push(e);
+        }
+    });
+}
+/// lossy conversion used only for recording
+pub fn f<T: crate::algebra::FloatT>(x: T) -> f64 {
+    num_traits::ToPrimitive::to_f64(&x).unwrap_or(f64::NAN)
+}
+pub fn fv<T: crate::algebra::FloatT>(x: &[T]) -> Vec<f64> {
+    x.iter().map(|v| f(*v)).collect()
+}
